@@ -209,6 +209,12 @@ def extract(u: Unit):
         rp = ex.st.alloc(HObj(rci, {"_time": VFloat(T_), "_start_time": VFloat(S_), "_time_step": VFloat(z3.Real("step")), "_pipeline_count": VInt(z3.Int("count"))}))
         ex.st.cell(det).fields["_readout_properties"] = rp
         return [], {"detector": det}
+    params = [a.arg for a in fi.node.args.args + fi.node.args.kwonlyargs]
+    if params != ["detector"]:
+        # the helper's interface changed: this isolated contract no longer applies; the label / bucket obligations are decided
+        # in the loop unit, where the helper is inlined at its call site
+        u.undecide("extract.contract_applicable", fi.qualname, f"_extract_datatree_2d now takes {params}; isolated contract written for (detector)")
+        return
     ps = u.paths(fi, setup, cfg, label="_extract_datatree_2d")
     for p in ps:
         if p.kind != "return":
@@ -238,6 +244,11 @@ def loop(u: Unit):
     cfg, fi = C02.exposure_cfg(u, may_raise=False)
     spec = cfg.loops[(fi.qualname, 0)]
     marks = {}
+    # the per-step extraction helper is INLINED here (its own unit proves it in isolation): whatever its signature, the step's
+    # dataset must be labelled with the absolute time of THIS step
+    cfg.contracts.pop(f"{EX}::_extract_datatree_2d", None)
+    for q in ("pyxel/data_structure/array.py::ArrayBase.to_xarray", DS + "photon.py::Photon.to_xarray", DS + "charge.py::Charge.to_xarray"):
+        cfg.contracts[q] = Contract(q, lambda ex, args, kwargs, fr: VOpaque("xr", ex.st.fresh_int("da"), {"label": "dataarray", "from": args[0]}), "C03.to_xarray")
 
     def after(ex, fr, k):
         st = ex.st
@@ -246,13 +257,17 @@ def loop(u: Unit):
         first = st.ghost.get("IS_EMPTY_AT_HEAD")
         tree_now = fr.locals["buckets_data_tree"]
         part = fr.locals.get("partial_datatree_2d")
+        tl = [e for e in ev if e[0] == "lib_call" and e[1] == "xarray.DataArray" and isinstance(e[3].get("dims"), VStr) and e[3]["dims"].v == "time"]
+        vals = ex.try_list(tl[0][2][0]) if len(tl) == 1 and tl[0][2] else None
+        okt = vals is not None and len(vals) == 1 and is_num(vals[0])
+        st.oblige("loop.step_labelled_with_its_absolute_time", z3.And(zb(okt), to_real(vals[0]) == C02.START + C02.T(k)) if okt else False, {"replay": REC_REPLAY}, assume_after=False)
         if len(merges) == 0:
             st.oblige("merge.each_step_once[first step takes the tree]", bool(tree_now is part), {"replay": REC_REPLAY}, assume_after=False)
         else:
             ok = len(merges) == 1 and len(merges[0][2]) == 3 and merges[0][2][1] is st.ghost["TREE_AT_HEAD"] and merges[0][2][2] is part
             st.oblige("merge.each_step_once", bool(ok), {"replay": REC_REPLAY}, assume_after=False)
             casts = [e for e in ev if e[0] == "xr_call" and str(e[1]).endswith("astype")]
-            sets = [e for e in ev if e[0] == "xr_setitem" and isinstance(e[2], VStr) and e[2].v == "image"]
+            sets = [e for e in ev if e[0] == "xr_setitem" and isinstance(e[2], VStr) and e[2].v == "image" and e[4] is tree_now]      # on the merged tree, not the step's own dataset
             reads = [e for e in ev if e[0] == "xr_dtype" and "image" in str(e[1])]
             img = D.bucket_array(st, ex.det_parts["image"])
             present = zb(z_not(D.is_empty_bucket(st, ex.det_parts["image"])))
